@@ -69,6 +69,11 @@ def isToken (n : Name) : Bool := !n.isEmpty && n.all isTokenChar
 def othersUnchanged (inp out : Hdr) : Bool :=
   inp.all (fun e => !isToken e.1 || isFiltered e.1 || ollaWritten.contains e.1 || out.contains e)
 
+/-- the other direction of "arrive unchanged": nothing is sent upstream under a name the client did not
+    send and olla does not own (e.g. a header of some other client's request) -/
+def nothingForeign (inp out : Hdr) : Bool :=
+  out.all (fun e => ollaWritten.contains e.1 || inp.any (fun i => i.1 == e.1))
+
 def valuesOf (h : Hdr) (k : Name) : List Value :=
   match h.find? (fun e => e.1 == k) with
   | some e => e.2
